@@ -385,9 +385,13 @@ impl ThreadPool {
         F: FnOnce() + Send + 'static,
     {
         let job = Box::new(f);
-        self.sender.send(Message::NewJob(job)).unwrap();
-        if ((self.num_busy() + 1) >= self.workers.len()) && (self.workers.len() <= self.max_workers)
         {
+            // count the job from the moment it is queued, not when a worker gets around to it
+            let mut num_busy = self.num_busy.write().unwrap();
+            *num_busy += 1;
+        }
+        self.sender.send(Message::NewJob(job)).unwrap();
+        if (self.num_busy() > self.workers.len()) && (self.workers.len() < self.max_workers) {
             self.workers.push(Worker::new(
                 Arc::clone(&self.receiver),
                 Arc::clone(&self.num_busy),
@@ -426,10 +430,6 @@ impl Worker {
 
             match message {
                 Message::NewJob(job) => {
-                    {
-                        let mut num_busy = num_busy.write().unwrap();
-                        *num_busy += 1;
-                    }
                     job.call_box();
                     {
                         let mut num_busy = num_busy.write().unwrap();
